@@ -572,3 +572,5 @@ func (w *vrWorker) checkConsumer(n *vrNode, cid string, when string) []V {
 	}
 	return vs
 }
+
+func (w *vrWorker) XWorldForTier2() *XWorld { return w.w }
